@@ -1,6 +1,6 @@
 """C06 Default salt. Theorems: Props/C06.lean (all schedules by induction). Correspondence: S-salt (real routine under an interposed scheduler)."""
 import io, os, random, shutil, tempfile, zipfile, contextlib, ast
-import pandas as pd
+import numpy as np, pandas as pd
 from common import *
 import salt_streams as SA
 
@@ -29,6 +29,23 @@ def explicit_and_secrecy(ctx):
         St.count(("explicit", salt), True, {"explicit_salt_len": len(salt)})
         if syn.salt != salt:
             ctx.oracle_fail(f"explicit salt {salt.hex()} not used verbatim (Synthesizer.salt = {syn.salt.hex()})", {"salt": salt}, "explicit")
+    # verbatim means every byte matters: two explicit salts that agree in a prefix (or differ only in length) are different salts,
+    # so across 40 entity sets the suppression decisions / noisy counts under them cannot all coincide
+    import syndiffix.anonymizer as A
+    from syndiffix.common import AnonymizationContext, SuppressionParams as _SP
+    for _ in range(ctx.scale(4, 16)):
+        k = R.choice([8, 8, 12, 16, 3])
+        base = bytes(R.getrandbits(8) | 1 for _ in range(k))
+        other = R.choice([base + b"x", base + bytes([R.getrandbits(8) | 1 for _ in range(8)]), base[:-1] + bytes([base[-1] ^ 0x10]) if k > 8 else base + b"\x01"])
+        seeds = [R.getrandbits(64) for _ in range(40)]
+        def fp(salt_):
+            ap_ = AnonymizationParams(salt=salt_, layer_noise_sd=3.0)
+            return ([A.is_low_count(salt_, _SP(3, 2.0, 2.0), [(5, np.uint64(s_))]) for s_ in seeds],
+                    [int(A.count_single_contributions(AnonymizationContext(np.uint64(s_ ^ 0x55), ap_), 1000, np.uint64(s_))) for s_ in seeds])
+        St.count(("salt-bytes", base, other), True, {"salt_a": base.hex(), "salt_b": other.hex()})
+        if fp(base) == fp(other):
+            ctx.oracle_fail(f"explicit salts {base.hex()} and {other.hex()} give the same 40 suppression decisions and the same 40 noisy counts: the salt is not used verbatim "
+                            f"(some of its bytes do not enter the noise)", {"salt_a": base.hex(), "salt_b": other.hex()}, "explicit-bytes")
     cfg = tempfile.mkdtemp(prefix="sdxsalt")
     saved = S.user_config_dir
     S.user_config_dir = lambda *a, **k: os.path.join(cfg, "c")
@@ -86,6 +103,8 @@ def extraction(ctx):
 
 def run(ctx, built):
     SA.stream_salt(ctx, built, ctx.scale(150, 2500))
+    import anon_streams as AS
+    AS.stream_hash(ctx, built)          # salted seeds with salts of 0..33 bytes against the model's SHA-256(salt || seed)
     explicit_and_secrecy(ctx)
     extraction(ctx)
 
